@@ -13,6 +13,9 @@ CFG = dict(
                    "C11_pop_until (PopUntil b returns b iff b is reachable and not yet popped, pops a walk prefix ending at b, "
                    "else EOF with everything popped) and C11_remove_ancestors (remaining queue = original minus ancestors-or-self "
                    "of sums, order kept) for any placement. "
+                   "The merge COMMAND's base selection (runMerge via wrgl.VerifRunMerge) is modelled as one all-at-once search "
+                   "(merge_base; C11_merge_base_found, C11_merge_base_is_input) and compared on generated histories; a pairwise "
+                   "fold is refuted (C11_fold_not_all_at_once_refuted, C11_fold_witness). "
                    "The clause 'base is an ancestor-or-self of every input' is REFUTED for 3 and 4 inputs "
                    "(C11_base3_common_refuted, C11_base4_common_refuted with vm_compute witnesses). Model tied to "
                    "pkg/ref by differential execution (all DAGs <= 5 commits x 4 timestamp regimes x tuples of 2..4 "
@@ -20,13 +23,19 @@ CFG = dict(
         level_note="Theorems are about coq/model/{Graph,Queue,Ancestor}.v (hand transliteration of commits_queue.go and "
                    "utils.go, loop for loop incl. the in-place deletion loops and the pre-check); tie = correspondence "
                    "harness (exact pop order when initial times are distinct). The mutex, slice growth policy and "
-                   "compaction loop of RemoveAncestors (modelled as an order-preserving filter) are not modelled literally.",
+                   "compaction loop of RemoveAncestors (modelled as an order-preserving filter) are not modelled literally. "
+                   "Of runMerge only the base selection is modelled (not the merge itself: C05).",
         rule="fixed witnesses (repaired defect 7e73525, the >=3-input witnesses, arities 0/1, duplicated inputs, unknown "
              "and deleted commits); exhaustive: every DAG with <= 5 commits (node i's parents a subset of size <= 2 of "
              "{0..i-1}) x regimes {topological, reversed, all equal, random skew} x all ordered pairs for IsAncestorOf x "
              "all ordered 2-,3-,4-tuples (with repetition) for SeekCommonAncestor (5-commit graphs sampled in quick, "
              "full in thorough) x root subsets for walks x (root subset, one or two PopUntil targets) x (root subset, 0..3 pops, sums subset) for "
-             "RemoveAncestors; random DAGs of 6..25 commits in three shapes, 1/8 with a "
+             "RemoveAncestors; merge command (kind 5, each commit carries a one-row table so that the "
+             "BASE row of CONFLICTS_*.csv / the fast-forward message names the base): fixed witnesses, the exhaustive criss-cross "
+             "scope (2 independent roots, two merge heads in all parent orders, a tail head on either root, 4 regimes, every "
+             "order of the heads, a root as head), random histories with several independent common ancestors, a sample of the "
+             "<= 5-commit DAGs with head tuples of 2..4, judged against SeekCommonAncestor over all heads at once and the graph "
+             "oracle; random DAGs of 6..25 commits in three shapes, 1/8 with a "
              "deleted commit. A case = one graph with a batch of <= 40 queries of one kind; distinct = distinct case "
              "text; non-trivial = graph has >= 2 commits",
         trusted=["commit id = node index (hashes mapped back by the harness; MeowHash never enters Coq); commit time = "
